@@ -453,7 +453,12 @@ func writeComputedFieldExpression(w *formatting.IndentedWriter, expression dsl.E
 				case dsl.BinaryOpMul:
 					w.WriteString("*")
 				case dsl.BinaryOpDiv:
-					w.WriteString("//")
+					if dsl.IsIntegralType(t.GetResolvedType()) {
+						w.WriteString("//")
+					} else {
+						// floor division would change the value of a real-valued quotient
+						w.WriteString("/")
+					}
 				case dsl.BinaryOpPow:
 					w.WriteString("**")
 				default:
